@@ -317,7 +317,7 @@ PROPS = {
                  "calls (57k states): each key is constructed at most once, every return is a complete object, the same for a key, and every call "
                  "terminates under fairness, EVEN IF the store into the slot is torn; the original code (FastPath) with a torn store violates "
                  "NoTorn - the defect F25 that the races then exhibited on the real crate - and the variant without Once violates BuiltOnce "
-                 "(non-vacuity). Real races: many fresh processes (the statics initialise once per process), 2..16 threads released by a barrier "
+                 "(non-vacuity). Thorough tier: LazyInd.tla states an inductive invariant of the repaired code (per key: nobody inside the Once while it is inc or done, exactly one thread inside while it is run, with the slot / counter values of each step) and Apalache checks Init => IndInv, IndInv /\\ Next => IndInv' and IndInv => the four safety properties for 4 threads x 2 keys, torn or atomic store, ANY number of calls per thread; the same invariant is not inductive for the original fast path. Real races: many fresh processes (the statics initialise once per process), 2..16 threads released by a barrier "
                  "first-use several depths of both tables (Layer via nested::get_or_create, constants via largest_center_to_vertex_distance); "
                  "inv / resp (harness) and construct (cfg-guarded hook in Layer::new and ConstantsC2V::new, with an optional busy-wait widening the "
                  "window) are totally ordered under one mutex; each response carries the returned address and an immediate probe through the "
@@ -330,6 +330,7 @@ PROPS = {
                         "probe rejects the history"],
         "stages": [
             {"kind": "mc", "module": "Lazy", "cfg": "MC_Lazy.cfg", "workers": 6},
+            {"kind": "ind", "module": "LazyInd", "cinit": "ConstInit4", "indinit": "IndInit", "inv": "IndInv", "safety": "Safety", "tiers": ("thorough",)},
             {"kind": "race", "runs": {"quick": 80, "thorough": 1500}, "profiles": ["release", "debug"]},
         ],
     },
